@@ -49,6 +49,7 @@ pub const POOL: &[&str] = &[
     "pragma solidity ^0.6.0 ;\nlibrary L {\nfunction add ( uint256 a , uint256 b ) internal pure returns ( uint256 ) { return a + b ; }\n}\n",
     "contract NoPragma { function f ( address t ) public { t . approve ( t , 1 ) ; } }\n",
     "pragma solidity 0.8.4 ;\ninterface I { function f ( ) external ; }\n",
+    "pragma solidity 0.8.10 ;\ncontract M {\nuint256 public a1 ;\nuint256 public a2 ;\nuint256 public a3 ;\nuint256 constant K1 = 1 ;\nuint256 constant K2 = 2 ;\nfunction g (\nstring memory s ,\nuint256 [ ] memory arr ,\nbytes memory data ,\naddress [ ] memory who\n) external returns ( uint256 ) {\nreturn arr . length + who . length + bytes ( s ) . length + data . length ;\n}\n}\n",
 ];
 
 pub struct TreeCfg {
@@ -65,6 +66,20 @@ impl Default for TreeCfg {
 }
 
 fn program_text(t: &mut Tape) -> String {
+    let p = program_text_inner(t);
+    if t.chance(64) {
+        // one token per line: constructs that share a line in the usual layout get lines of their own
+        if let Some(toks) = crate::gen::layout::tokenize(&p) {
+            let l1 = crate::gen::layout::fixed_layout(&toks, crate::gen::layout::Fixed::OnePerLine);
+            if crate::parse(&l1).is_some() {
+                return l1;
+            }
+        }
+    }
+    p
+}
+
+fn program_text_inner(t: &mut Tape) -> String {
     if t.chance(150) {
         t.pick(POOL).to_string()
     } else {
